@@ -313,6 +313,6 @@ pub fn run(run: &Run) {
     run.assume("hash inequality of different filters is not asserted (FNV may collide)");
     let subs = subs();
     run_regressions(run, &subs);
-    let n = run.tier.pick(300_000, 5_000_000);
+    let n = run.tier.pick(300_000, 15_000_000);
     run.random("canon", n, 300, &*find_sub(&subs, "canon").unwrap().f);
 }
